@@ -185,6 +185,17 @@ func (c *Ctx) Inconclusive(why string) {
 	c.mu.Unlock()
 }
 
+// ViolationHits returns the total number of recorded violation witnesses (all keys).
+func (c *Ctx) ViolationHits() int64 {
+	c.mu.Lock()
+	defer c.mu.Unlock()
+	var n int64
+	for _, v := range c.violations {
+		n += v.Count
+	}
+	return n
+}
+
 // NumViolations returns the number of distinct violation keys.
 func (c *Ctx) NumViolations() int {
 	c.mu.Lock()
